@@ -253,7 +253,58 @@ func c06Sub(w *W) {
 			w.Op("ctx%d Recv", c.idx)
 			doRecv(c)
 		case k == 9:
-			w.Sleep(time.Duration(1+a) * time.Millisecond)
+			// a Recv that is already blocked must survive a subscription change on
+			// its own context and still get the next matching message
+			if kind != "sub" || len(c.queue) > 0 || overflow {
+				w.Sleep(time.Duration(1+a) * time.Millisecond)
+				break
+			}
+			if !doRecvEmpty(w, c, recv) {
+				return
+			}
+			_ = setopt(c, mangos.OptionRecvDeadline, 200*time.Millisecond)
+			blocked := w.Do(fmt.Sprintf("ctx%d.Recv(blocked)", c.idx), func() (interface{}, error) { return recv(c) })
+			w.Settle()
+			name := mangos.OptionSubscribe
+			t := c6Topics[w.Choose(simrt.SProg, len(c6Topics))]
+			if len(c.subs) > 1 && w.Choose(simrt.SProg, 2) == 0 {
+				name = mangos.OptionUnsubscribe
+				t = c.subs[w.Choose(simrt.SProg, len(c.subs))]
+			}
+			call := w.Do(name, func() (interface{}, error) { return nil, setopt(c, name, t) })
+			w.Settle()
+			if !call.Returned() {
+				w.Failf("C12/call-never-returns:SetOption", "%s did not return while a Recv was blocked", name)
+				return
+			}
+			c6Apply(w, c, name, t, call.Err, overflow)
+			w.Op("ctx%d %s %q while a Recv is blocked", c.idx, name, t)
+			_ = setopt(c, mangos.OptionRecvDeadline, time.Millisecond)
+			if len(c.subs) == 0 || blocked.Returned() {
+				blocked.Wait(300 * time.Millisecond)
+				break
+			}
+			seq++
+			body := append(append([]byte(nil), c.subs[0]...), fmt.Sprintf("#%d", seq)...)
+			published[string(body)] = true
+			if err := pubs[0].Send(body); err != nil {
+				w.Failf("C06/publish-failed", "%v", err)
+				return
+			}
+			w.Sleep(time.Millisecond)
+			w.Settle()
+			for _, cx := range ctxs {
+				if cx != c && cx.matches(body) {
+					cx.queue = append(cx.queue, c6Entry{string(body), false})
+				}
+			}
+			if !blocked.Returned() || blocked.Err != nil || string(blocked.Val.([]byte)) != string(body) {
+				blocked.Wait(300 * time.Millisecond)
+				w.Failf("C06/matching-message-lost", "ctx%d: a Recv was blocked (200ms deadline) when %s(%q) was applied; the matching message %q published right after was not handed to it (returned=%v err=%v)", c.idx, name, t, body, blocked.Returned(), errName(blocked.Err))
+				return
+			}
+			w.Probe("blocked-recv-survives-subscription-change")
+			w.Delivery++
 		}
 		w.Settle()
 	}
@@ -405,4 +456,20 @@ func c06Pub(w *W) {
 func init() {
 	register(&Scenario{Name: "sub-matching", Prop: "C06", Horizon: time.Hour, Weight: 3, Run: c06Sub})
 	register(&Scenario{Name: "pub-fanout", Prop: "C06", Horizon: time.Hour, Weight: 1, Run: c06Pub})
+}
+
+// doRecvEmpty makes sure nothing is queued for c in the real socket either.
+func doRecvEmpty(w *W, c *c6Ctx, recv func(*c6Ctx) ([]byte, error)) bool {
+	for i := 0; i < 200; i++ {
+		call := w.Do("drain", func() (interface{}, error) { return recv(c) })
+		call.Wait(10 * time.Millisecond)
+		w.Settle()
+		if !call.Returned() {
+			return false
+		}
+		if call.Err != nil {
+			return true
+		}
+	}
+	return false
 }
